@@ -122,7 +122,10 @@ def build(spec, hashes=None, chashes=None, fresh_strings=False, plain=False):
             )
             team.add_worker(w)
             wid += 1
-        team.extend_targeted_task_list([tasks[k] for k in tm.get("targets", [])])
+        if spec.get("team_wiring") == "ctor":
+            team.targeted_task_list = [tasks[k] for k in tm.get("targets", [])]   # what BaseTeam(targeted_task_list=...) does
+        else:
+            team.extend_targeted_task_list([tasks[k] for k in tm.get("targets", [])])
         teams.append(team)
 
     fid = 0
